@@ -84,6 +84,28 @@ fn t_c04(rng: &mut Rng, g: &mut GenCfg, w: &mut WorldCfg) {
     w.ids_every = 0;
 }
 
+fn t_c06(rng: &mut Rng, g: &mut GenCfg, w: &mut WorldCfg) {
+    g.wsel = [40, 0, 0, 0, 0, 2, 10, 6, 6, 3];
+    g.pct_geometry = *rng.pick(&[40, 70]);
+    g.pct_invalid = 0;
+    g.n_ops = rng.range(6, 24);
+    g.max_text_len = *rng.pick(&[3, 8, 12, 20, 40]);
+    g.alphabets[5] = true;
+    g.n_res_ids = rng.range(1, 2);
+    g.w[W_REMOVE_ANNOTATION] = *rng.pick(&[0, 3]);
+    g.w[W_REMOVE_DATA] = 0;
+    g.w[W_REMOVE_KEY] = 0;
+    g.w[W_REMOVE_RESOURCE] = 0;
+    g.w[W_REMOVE_DATASET] = 0;
+    g.w[W_PROTECT] = 0;
+    if rng.chance(1, 3) {
+        g.restart_formats = vec![*rng.pick(&[Format::JsonInline, Format::Cbor])];
+        g.w[W_RESTART] = 2;
+    }
+    w.ids_every = 0;
+    w.related_every = *rng.pick(&[3, 5]);
+}
+
 fn t_c10(rng: &mut Rng, g: &mut GenCfg, w: &mut WorldCfg) {
     g.w[W_INSERT_DATA] = 25;
     g.w[W_ADD_DATASET] = 6;
@@ -191,6 +213,16 @@ pub fn profiles() -> Vec<Profile> {
             tweak: t_c04,
             quick_runs: 4000,
             thorough_runs: 200000,
+            rule: STATE_RULE,
+        },
+        Profile {
+            property: "C06",
+            engine: "stamsim-lockstep",
+            owners: &["C06"],
+            level: "exploration",
+            tweak: t_c06,
+            quick_runs: 1500,
+            thorough_runs: 100000,
             rule: STATE_RULE,
         },
         Profile {
